@@ -34,6 +34,8 @@ struct V
     formats: Vec<(String, String)>,       // (enclosing fn, literal)
     assigns: Vec<(String, String, String)>, // (enclosing fn, variable, literal)
     registers: Vec<String>,
+    lock_fields: Vec<(String, String)>,   // fields of struct Cache: (name, type)
+    lock_struct_attrs: Vec<String>,       // serde attributes on struct Cache or its fields
 }
 
 fn signal_expr(e: &syn::Expr) -> String
@@ -170,6 +172,32 @@ impl<'ast> Visit<'ast> for V
 
     fn visit_item_struct(&mut self, s: &'ast syn::ItemStruct)
     {
+        if s.ident == "Cache"
+        {
+            for a in &s.attrs
+            {
+                if a.path().is_ident("serde")
+                {
+                    self.lock_struct_attrs.push("struct".to_string());
+                }
+            }
+            for f in s.fields.iter()
+            {
+                let ty = match &f.ty
+                {
+                    syn::Type::Path(p) => p.path.segments.last().map(|x| x.ident.to_string()).unwrap_or_default(),
+                    _ => String::new(),
+                };
+                self.lock_fields.push((f.ident.as_ref().map(|i| i.to_string()).unwrap_or_default(), ty));
+                for a in &f.attrs
+                {
+                    if a.path().is_ident("serde")
+                    {
+                        self.lock_struct_attrs.push("field".to_string());
+                    }
+                }
+            }
+        }
         for f in s.fields.iter()
         {
             for a in &f.attrs
@@ -395,6 +423,19 @@ pub fn translate(repo: &str) -> String
     out.push_str(&format!(
         "Definition serde_defaults : list (string * string * string) :=\n  [{}]%string.\n\n",
         fields.join("; ")
+    ));
+
+    // the lock file structure: exactly one u32 field, plain serde derive (no container / field attributes)
+    if v.lock_fields.len() != 1 || v.lock_fields[0].1 != "u32" || !v.lock_struct_attrs.is_empty()
+    {
+        refuse(&format!(
+            "struct Cache is not a single plain u32 field: fields {:?}, serde attributes {:?}",
+            v.lock_fields, v.lock_struct_attrs
+        ));
+    }
+    out.push_str(&format!(
+        "(* the only field of the lock file structure (struct Cache, serialised by serde_yaml) *)\nDefinition c_lock_field : list N := {}.\n\n",
+        cps(&v.lock_fields[0].0)
     ));
 
     // format pieces
